@@ -14,3 +14,114 @@ package observation
 //
 //@ func ValidSequenceNumber(oldValue uint32, newValue uint32, lastEventOccurs time.Time, now time.Time) (r bool)
 //@   ensures [rfc] r <==> rfc7641Fresh(oldValue, newValue, lastEventOccurs, now)
+//
+// ---- C08: registration, dispatch and cancellation ------------------------------------------------------
+//
+// Assumed contracts (unverified surroundings):
+//
+//@ func (Client) WriteMessage(req *pool.Message) (err error)
+//@   trusted
+//
+//@ func (Client) Context() (c context.Context)
+//@   trusted
+//
+//@ func (Client) AcquireMessage(ctx context.Context) (m *pool.Message)
+//@   trusted
+//@   ensures m != nil
+//
+//@ func (Client) ReleaseMessage(msg *pool.Message)
+//@   trusted
+//
+//@ func newObservation(req message.Message, observationHandler *Handler, observeFunc func(req *pool.Message), respObservationChan chan respObservationMessage) (o *Observation)
+//@   trusted
+//@   ensures o != nil && fresh(o)
+//
+//@ func (*Handler) pullOutObservation(key uint64) (o *Observation, ok bool)
+//@   trusted
+//
+// cleanUp removes the observation's token from the table (at most once effective).
+//
+//@ func (*Observation) cleanUp() (ok bool)
+//@   requires o != nil
+//@   ensures [removes] callCount(pullOutObservation) == 1 && ok == callRes(pullOutObservation, 0, 1)
+//
+// NewObservation: the registration is in the table only while it is wanted - a registration that
+// fails after it was entered is removed again, a duplicate token is rejected without touching the
+// registration that owns the token, success needs a 2.05/2.03 answer, and a peer that answers
+// without the Observe option ends the registration.
+//
+//@ func (*Handler) NewObservation(req *pool.Message, observeFunc func(req *pool.Message)) (o *Observation, err error)
+//@   requires h != nil && req != nil && h.observations != nil
+//@   modifies anything
+//@   opaque-calls pure
+//@   signal-channels
+//@   lockinv [no-nil-observation] forall k int :: {present(h.observations.data, k)} present(h.observations.data, k) ==> h.observations.data[k] != nil
+//@   ensures [exclusive-result] (o == nil) <==> (err != nil)
+//@   ensures [registers-at-most-once] callCount(LoadOrStore) <= 1
+//@   ensures [unregistered-failure-touches-nothing] notCalled(LoadOrStore) ==> err != nil && notCalled(cleanUp) && notCalled(WriteMessage)
+//@   ensures [duplicate-token-rejected] called(LoadOrStore) && callRes(LoadOrStore, 0, 1) ==> err != nil && notCalled(WriteMessage) && notCalled(cleanUp)
+//@   ensures [failed-registration-removed] called(LoadOrStore) && !callRes(LoadOrStore, 0, 1) && err != nil ==> called(cleanUp)
+//@   ensures [request-sent-after-registration] called(WriteMessage) ==> callSeq(LoadOrStore, 0) < callSeq(WriteMessage, 0) && callArg(WriteMessage, 0, 1) == req
+//@   ensures [success-needs-select] err == nil ==> called(select)
+//@   ensures [success-needs-answer] called(select) && err == nil ==> callRes(select, 0, 0) == 2 && (callRes(select, 0, 4).code == 69 || callRes(select, 0, 4).code == 67)
+//@   ensures [not-supported-ends-it] called(select) && err == nil && callRes(select, 0, 4).notSupported ==> called(cleanUp)
+//@   ensures [supported-stays] called(select) && err == nil && !callRes(select, 0, 4).notSupported ==> notCalled(cleanUp)
+//
+// The per-observation freshness state is guarded by its own mutex.
+//
+//@ guarded Observation.private.obsSequence by Observation.private.mutex
+//@ guarded Observation.private.lastEvent by Observation.private.mutex
+//@ guarded Observation.private.etag by Observation.private.mutex
+//
+// wantBeNotified: a notification is accepted iff it carries no Observe option or is fresher (RFC 7641)
+// than the last ACCEPTED one; only an accepted one moves the last sequence number / time; all of this
+// in one critical section, against the clock value read by this call.
+//
+//@ func (*Observation) wantBeNotified(r *pool.Message) (want bool)
+//@   requires o != nil && r != nil
+//@   opaque-calls pure
+//@   witness t = now
+//@   cs-pure o.private.obsSequence == old(o.private.obsSequence) && o.private.lastEvent == old(o.private.lastEvent)
+//@   ensures [no-option-always] callRes(Observe, 0, 1) != nil ==> want
+//@   atomic [accept-iff-fresh] callRes(Observe, 0, 1) == nil ==> (want <==> rfc7641Fresh(old(o.private.obsSequence), callRes(Observe, 0, 0), old(o.private.lastEvent), t))
+//@   atomic [accepted-advances] callRes(Observe, 0, 1) == nil && want ==> o.private.obsSequence == callRes(Observe, 0, 0) && o.private.lastEvent == t
+//@   atomic [rejected-keeps] callRes(Observe, 0, 1) == nil && !want ==> o.private.obsSequence == old(o.private.obsSequence) && o.private.lastEvent == old(o.private.lastEvent)
+//
+// handle: the callback runs iff the notification is wanted, at most once, with that very message.
+//
+//@ func (*Observation) handle(r *pool.Message)
+//@   requires o != nil && r != nil
+//@   modifies o.waitForResponse, o.respObservationChan
+//@   opaque-calls pure
+//@   ensures [asks-once] callCount(wantBeNotified) == 1 && callArg(wantBeNotified, 0, 1) == r
+//@   ensures [callback-iff-wanted] called(observeFunc) <==> callRes(wantBeNotified, 0, 0)
+//@   ensures [callback-once] callCount(observeFunc) <= 1 && (called(observeFunc) ==> callArg(observeFunc, 0, 0) == r)
+//@   ensures [first-answer-once] !atomicLoad(o.waitForResponse) && (!old(atomicLoad(o.waitForResponse)) ==> notCalled(select))
+//
+// Handle: a message goes to the observation registered under the hash of ITS token and to nobody else;
+// without such an observation it goes to the next handler.
+//
+//@ func (*Handler) Handle(w *responsewriter.ResponseWriter, r *pool.Message)
+//@   requires h != nil && r != nil && h.observations != nil
+//@   modifies anything
+//@   opaque-calls pure
+//@   lockinv [no-nil-observation] forall k int :: {present(h.observations.data, k)} present(h.observations.data, k) ==> h.observations.data[k] != nil
+//@   ensures [lookup-by-own-token] callCount(Load) == 1 && callCount(Token) == 1 && callArg(Token, 0, 0) == r && callCount(Hash) == 1 && callArg(Hash, 0, 0) == callRes(Token, 0, 0) && callArg(Load, 0, 1) == callRes(Hash, 0, 0)
+//@   ensures [routed] callRes(Load, 0, 1) ==> callCount(handle) == 1 && callArg(handle, 0, 0) == callRes(Load, 0, 0) && callArg(handle, 0, 1) == r && notCalled(next)
+//@   ensures [otherwise-next] !callRes(Load, 0, 1) ==> callCount(next) == 1 && notCalled(handle)
+//
+//@ func (*Observation) client() (c C)
+//@   trusted
+//
+//@ func (*Observation) etag() (e []byte)
+//@   trusted
+//
+// Cancel: the table entry is removed before anything else happens; if it was gone already nothing is sent.
+//
+//@ func (*Observation) Cancel(ctx context.Context, opts ...message.Option) (err error)
+//@   requires o != nil && o.observationHandler != nil
+//@   modifies anything
+//@   opaque-calls pure
+//@   callback do: r1 != nil || r0 != nil
+//@   ensures [removes-first] callCount(cleanUp) == 1 && callSeq(cleanUp, 0) == 0
+//@   ensures [already-gone] !callRes(cleanUp, 0, 0) ==> err == nil && notCalled(do) && notCalled(AcquireMessage)
